@@ -233,3 +233,81 @@ func (fr *frame) strictDeepEq(t types.Type, a, b value, depth int) *Term {
 	}
 	return fr.deepEq(t, a, b, depth)
 }
+
+// ---- sync.Map ------------------------------------------------------------------------
+// A sync.Map is modelled as an ordered map attached to the address of the receiver (per path).
+// Keys are interface values compared with Go's == (concrete keys only).
+
+func syncMapOf(fr *frame, recv value) *omap {
+	p := recv.(*value)
+	if m, ok := fr.i.ctx.natives[p].(*omap); ok {
+		return m
+	}
+	m := makeMap(types.NewInterfaceType(nil, nil))
+	fr.i.ctx.natives[p] = m
+	return m
+}
+
+func init() {
+	intrinsics["(*sync.Map).Load"] = func(fr *frame, a []value) value {
+		v, ok := syncMapOf(fr, a[0]).lookup(a[1])
+		if !ok {
+			return tuple{iface{}, false}
+		}
+		return tuple{v, true}
+	}
+	intrinsics["(*sync.Map).Store"] = func(fr *frame, a []value) value {
+		syncMapOf(fr, a[0]).insert(a[1], a[2])
+		return nil
+	}
+	intrinsics["(*sync.Map).LoadOrStore"] = func(fr *frame, a []value) value {
+		m := syncMapOf(fr, a[0])
+		if v, ok := m.lookup(a[1]); ok {
+			return tuple{v, true}
+		}
+		m.insert(a[1], a[2])
+		return tuple{a[2], false}
+	}
+	intrinsics["(*sync.Map).LoadAndDelete"] = func(fr *frame, a []value) value {
+		m := syncMapOf(fr, a[0])
+		v, ok := m.lookup(a[1])
+		if !ok {
+			return tuple{iface{}, false}
+		}
+		m.delete(a[1])
+		return tuple{v, true}
+	}
+	intrinsics["(*sync.Map).Delete"] = func(fr *frame, a []value) value {
+		syncMapOf(fr, a[0]).delete(a[1])
+		return nil
+	}
+	intrinsics["(*sync.Map).Swap"] = func(fr *frame, a []value) value {
+		m := syncMapOf(fr, a[0])
+		v, ok := m.lookup(a[1])
+		m.insert(a[1], a[2])
+		if !ok {
+			return tuple{iface{}, false}
+		}
+		return tuple{v, true}
+	}
+	intrinsics["(*sync.Map).Range"] = func(fr *frame, a []value) value {
+		m := syncMapOf(fr, a[0])
+		it := &omapIter{m: m}
+		for {
+			t := it.next()
+			if !t[0].(bool) {
+				break
+			}
+			r := call(fr.i, fr, 0, a[1], []value{t[1], t[2]})
+			if b, ok := r.(bool); ok && !b {
+				break
+			}
+		}
+		return nil
+	}
+	intrinsics["(*sync.Map).Clear"] = func(fr *frame, a []value) value {
+		p := a[0].(*value)
+		delete(fr.i.ctx.natives, p)
+		return nil
+	}
+}
